@@ -703,6 +703,13 @@ def apply_model(interp, st, t, b, record):
                     else:
                         st.z.add(tt[0], dt, 0)
         return
+    if nm == "std::cmp::Ord::clamp":
+        # clamp(self, min, max) panics iff min > max
+        rl, rh = interp.range_of(st, args[1]), interp.range_of(st, args[2])
+        ok = rl[1] <= rh[0]
+        ob("clamp", (t.get("sn") or nm)[:90], ok, "min in [%s, %s] <= max in [%s, %s]" % (_f(rl[0]), _f(rl[1]), _f(rh[0]), _f(rh[1])))
+        fresh_dest(rl[0] if rl[0] != -INF else None, rh[1] if rh[1] != INF else None)
+        return
     if nm in ("std::convert::From::from", "std::convert::Into::into"):
         ra = interp.range_of(st, args[0])
         ta = interp.term_of_operand(st, args[0])
